@@ -76,6 +76,7 @@ Proof.
   unfold rt_h3. destruct (negb (e_https e)); [intros H; inversion H; reflexivity|].
   destruct (c_t3 c); try (intros H; inversion H; reflexivity).
   - destruct oc; [discriminate|]. intros H; inversion H. apply rt_h3_fresh_tls.
+  - destruct oc; [discriminate|]. intros H; inversion H. rewrite rt_h3_fresh_tls. reflexivity.
   - destruct oc; intros H; inversion H; [reflexivity|]. rewrite rt_h3_fresh_tls. reflexivity.
 Qed.
 
@@ -139,8 +140,8 @@ Lemma do_bg_tls e c : c_tls (snd (do_bg e c)) = c_tls c.
 Proof.
   unfold do_bg. destruct (negb (c_bg c)); [reflexivity|].
   destruct (c_t3 c); try reflexivity.
-  destruct (h3_dial e c) as [h d]. destruct h as [p|er]; [reflexivity|].
-  destruct er; try reflexivity. destruct (verify_ok _ _); reflexivity.
+  all: destruct (h3_dial e (with_t3 T3None c)) as [h d]; destruct h as [p|er]; [reflexivity|];
+    destruct er; try reflexivity; destruct (verify_ok _ _); reflexivity.
 Qed.
 
 Lemma step_tls g e c o : c_tls (snd (step_gen g e c o)) = cfg_op o (c_tls c).
@@ -275,6 +276,7 @@ Proof.
   { intros H; inversion H. constructor. }
   destruct (c_t3 c); try (intros H; inversion H; constructor).
   - destruct oc; [discriminate|]. intros H; inversion H. apply rt_h3_fresh_sound.
+  - destruct oc; [discriminate|]. intros H; inversion H. exact (rt_h3_fresh_sound e (with_t3 T3None c)).
   - destruct oc; intros H; inversion H; [constructor|]. exact (rt_h3_fresh_sound e (with_t3 T3None c)).
 Qed.
 
@@ -400,7 +402,7 @@ Proof.
   destruct (c_t3 c).
   - destruct oc; [discriminate|]. intros H; inversion H. apply rt_h3_fresh_outcome.
   - intros H; inversion H; left; reflexivity.
-  - intros H; inversion H; right; eexists; reflexivity.
+  - destruct oc; [discriminate|]. intros H; inversion H. apply rt_h3_fresh_outcome.
   - intros H; inversion H; right; eexists; reflexivity.
   - destruct oc; intros H; inversion H; [right; eexists; reflexivity | apply rt_h3_fresh_outcome].
 Qed.
@@ -417,7 +419,7 @@ Proof.
   destruct (c_t3 c).
   - destruct oc; [discriminate|]. intros H; inversion H. intros V. right. eapply rt_h3_fresh_v3; eauto.
   - intros; left; reflexivity.
-  - intros H; inversion H; discriminate.
+  - destruct oc; [discriminate|]. intros H; inversion H. intros V. right. eapply rt_h3_fresh_v3; eauto.
   - intros H; inversion H; discriminate.
   - destruct oc; intros H; inversion H; [discriminate|]. intros V. right. eapply rt_h3_fresh_v3; eauto.
 Qed.
@@ -519,8 +521,8 @@ Lemma rt_h3_fresh_inv e c :
 Proof.
   unfold rt_h3_fresh, inv3, inv2, h3_dial. intros T I2. destruct (s_h3 (e_srv e)) eqn:S.
   - destruct (handshake _ _ _) as [p|er]; [cbn; auto|].
-    destruct er; cbn; auto; split; auto; try discriminate; intros X; contradiction.
-  - cbn. split; auto. discriminate.
+    destruct er; cbn; (split; [intros X; try reflexivity; contradiction | exact I2]).
+  - cbn. split; [intros X; contradiction | exact I2].
 Qed.
 
 Lemma rt_h3_inv oc e c r : rt_h3 oc e c = Some r -> inv3 e c -> inv2 e c -> inv3 e (snd r) /\ inv2 e (snd r).
@@ -529,7 +531,7 @@ Proof.
   destruct (c_t3 c) eqn:T.
   - destruct oc; [discriminate|]. intros H I3 I2; inversion H. apply rt_h3_fresh_inv; [rewrite T; discriminate | exact I2].
   - intros H; inversion H; cbn; auto.
-  - intros H I3 I2; inversion H; unfold inv3, inv2 in *; cbn. split; [discriminate | exact I2].
+  - destruct oc; [discriminate|]. intros H I3 I2; inversion H. apply rt_h3_fresh_inv; [cbn; discriminate | exact I2].
   - intros H I3 I2; inversion H; cbn; auto.
   - destruct oc; intros H I3 I2; inversion H.
     + unfold inv3, inv2 in *; cbn. split; [discriminate | exact I2].
@@ -644,14 +646,34 @@ Proof. intros. unfold do_req_gen. apply after_response_inv, round_trip_inv; auto
 Lemma do_bg_inv e c : inv3 e c -> inv2 e c -> inv3 e (snd (do_bg e c)) /\ inv2 e (snd (do_bg e c)).
 Proof.
   unfold do_bg, inv3, inv2. intros I3 I2. destruct (negb (c_bg c)); [auto|].
+  assert (F : inv3 e (snd (let c := with_t3 T3None c in let '(h, d) := h3_dial e c in
+      match h with
+      | HsOk _ => ([d], with_alt (APending true) false (with_t3 T3Conn c))
+      | HsFail EDial => ([], with_alt (APending true) false (with_t3 T3Dialing c))
+      | HsFail ECert =>
+          if verify_ok (tls_view S3 false (e_host e) (c_tls c)) (e_srv e)
+          then ([d], with_alt (APending true) false (with_t3 T3Dead c))
+          else ([d], with_alt (APending true) false c)
+      | HsFail er => ([d], with_alt (APending true) false c)
+      end)) /\ inv2 e (snd (let c := with_t3 T3None c in let '(h, d) := h3_dial e c in
+      match h with
+      | HsOk _ => ([d], with_alt (APending true) false (with_t3 T3Conn c))
+      | HsFail EDial => ([], with_alt (APending true) false (with_t3 T3Dialing c))
+      | HsFail ECert =>
+          if verify_ok (tls_view S3 false (e_host e) (c_tls c)) (e_srv e)
+          then ([d], with_alt (APending true) false (with_t3 T3Dead c))
+          else ([d], with_alt (APending true) false c)
+      | HsFail er => ([d], with_alt (APending true) false c)
+      end))).
+  { unfold inv3, inv2, h3_dial. cbn zeta. destruct (s_h3 (e_srv e)) eqn:S.
+    - destruct (handshake _ _ _) as [p|er]; [cbn; split; auto|].
+      destruct er; try (cbn; split; [discriminate | exact I2]).
+      destruct (verify_ok _ _); cbn; (split; [discriminate | exact I2]).
+    - cbn. split; [discriminate | exact I2]. }
   destruct (c_t3 c) eqn:T.
-  - unfold h3_dial. destruct (s_h3 (e_srv e)) eqn:S.
-    + destruct (handshake _ _ _) as [p|er]; [cbn; split; auto|].
-      destruct er; try (cbn; split; auto; discriminate).
-      destruct (verify_ok _ _); cbn; split; auto; discriminate.
-    + cbn. split; auto. discriminate.
+  - exact F.
   - cbn. rewrite T. auto.
-  - cbn. split; auto. discriminate.
+  - exact F.
   - cbn. rewrite T. split; [discriminate | exact I2].
   - cbn. rewrite T. split; [discriminate | exact I2].
 Qed.
@@ -826,6 +848,7 @@ Proof.
   unfold rt_h3. destruct (negb (e_https e)); [intros H; inversion H; reflexivity|].
   destruct (c_t3 c); try (intros H; inversion H; reflexivity).
   - destruct oc; [discriminate|]. intros H; inversion H. apply rt_h3_fresh_plain.
+  - destruct oc; [discriminate|]. intros H; inversion H. rewrite rt_h3_fresh_plain. reflexivity.
   - destruct oc; intros H; inversion H; [reflexivity|]. rewrite rt_h3_fresh_plain. reflexivity.
 Qed.
 
@@ -897,8 +920,8 @@ Lemma do_bg_plain e c : c_plain_dialtls (snd (do_bg e c)) = c_plain_dialtls c.
 Proof.
   unfold do_bg. destruct (negb (c_bg c)); [reflexivity|].
   destruct (c_t3 c); try reflexivity.
-  destruct (h3_dial e c) as [h d]. destruct h as [p|er]; [reflexivity|].
-  destruct er; try reflexivity. destruct (verify_ok _ _); reflexivity.
+  all: destruct (h3_dial e (with_t3 T3None c)) as [h d]; destruct h as [p|er]; [reflexivity|];
+    destruct er; try reflexivity; destruct (verify_ok _ _); reflexivity.
 Qed.
 
 Lemma step_plain g e c o : c_plain_dialtls c = false -> c_plain_dialtls (snd (step_gen g e c o)) = false.
